@@ -43,6 +43,7 @@ type event struct {
 	Label  string `json:"label,omitempty"` // os label, or "METHOD /path"
 	Call   string `json:"call,omitempty"`  // os call (Rename, Open, ...)
 	LockID int64  `json:"lock_id,omitempty"`
+	To     string `json:"to,omitempty"`     // http: node the request was addressed to
 	Status int    `json:"status,omitempty"` // http status seen by the client (0 = no response)
 	Err    string `json:"err,omitempty"`
 }
@@ -86,15 +87,36 @@ func (r *recorder) between(lo, hi int64, f func(e event) bool) []event {
 // tap wraps the transport of a node's real HTTP client: it records every /halt and /tx exchange and
 // can lose a response after the server handled the request (the request was executed, the caller
 // sees a transport error), which sim.FaultClient cannot do on its own.
+type txCopy struct {
+	Seq    int64
+	LockID int64
+	Body   []byte
+}
+
 type tap struct {
+	w     *world
 	node  string
 	inner http.RoundTripper
 	rec   *recorder
 
-	mu           sync.Mutex
-	loseResp     map[string]int // "POST /tx" -> how many responses to lose
-	lastTxBody   []byte
-	lastTxLockID int64
+	mu          sync.Mutex
+	loseResp    map[string]int // "POST /tx" -> how many responses to lose
+	dropReq     map[string]int // "POST /tx" -> how many requests to drop before they are sent
+	txLog       []txCopy       // every /tx body this node tried to send
+	partitioned bool           // no /halt or /tx request of this node reaches anybody
+}
+
+func (t *tap) partition(on bool) {
+	t.mu.Lock()
+	t.partitioned = on
+	t.mu.Unlock()
+}
+
+// reset forgets fault injections that were armed but not consumed.
+func (t *tap) reset() {
+	t.mu.Lock()
+	t.loseResp, t.dropReq = nil, nil
+	t.mu.Unlock()
 }
 
 func (t *tap) lose(key string, n int) {
@@ -106,10 +128,26 @@ func (t *tap) lose(key string, n int) {
 	t.mu.Unlock()
 }
 
-func (t *tap) lastTx() ([]byte, int64) {
+func (t *tap) drop(key string, n int) {
+	t.mu.Lock()
+	if t.dropReq == nil {
+		t.dropReq = map[string]int{}
+	}
+	t.dropReq[key] += n
+	t.mu.Unlock()
+}
+
+// txSince returns the /tx bodies this node tried to send after sequence point seq.
+func (t *tap) txSince(seq int64) []txCopy {
 	t.mu.Lock()
 	defer t.mu.Unlock()
-	return append([]byte(nil), t.lastTxBody...), t.lastTxLockID
+	var out []txCopy
+	for _, c := range t.txLog {
+		if c.Seq > seq {
+			out = append(out, c)
+		}
+	}
+	return out
 }
 
 func (t *tap) RoundTrip(req *http.Request) (*http.Response, error) {
@@ -131,13 +169,30 @@ func (t *tap) RoundTrip(req *http.Request) (*http.Response, error) {
 			return nil, err
 		}
 		t.mu.Lock()
-		t.lastTxBody, t.lastTxLockID = b, id
+		t.txLog = append(t.txLog, txCopy{Seq: t.rec.mark(), LockID: id, Body: b})
 		t.mu.Unlock()
 		req.Body = io.NopCloser(bytes.NewReader(b))
 		req.ContentLength = int64(len(b))
 	}
+	ev := event{Node: t.node, Kind: "http", Label: key, LockID: id, To: t.w.roleOfHost(req.URL.Host)}
+	t.mu.Lock()
+	dropIt := t.dropReq[key] > 0
+	if dropIt {
+		t.dropReq[key]--
+	}
+	part := t.partitioned
+	t.mu.Unlock()
+	if part {
+		ev.Err = "partitioned (fault injection)"
+		t.rec.add(ev)
+		return nil, errors.New("fault injection: partitioned from the primary")
+	}
+	if dropIt {
+		ev.Err = "request lost (fault injection)"
+		t.rec.add(ev)
+		return nil, errors.New("fault injection: request lost")
+	}
 	resp, err := t.inner.RoundTrip(req)
-	ev := event{Node: t.node, Kind: "http", Label: key, LockID: id}
 	if err != nil {
 		ev.Err = err.Error()
 		t.rec.add(ev)
@@ -196,7 +251,7 @@ const dbName = "db"
 // to WAL) with two committed transactions and waits until both replicas have caught up.
 func newWorld(o worldOpts) (*world, error) {
 	if o.AcquireTO == 0 {
-		o.AcquireTO = 2 * time.Second
+		o.AcquireTO = 2400 * time.Millisecond
 	}
 	w := &world{o: o, dir: core.Scratch("c13"), rec: &recorder{}, n: map[string]*sim.CNode{}, taps: map[string]*tap{}, db: dbName, owner: 100, ids: map[string]uint64{}, pg: map[string]*sim.Pager{}}
 	w.cl = sim.NewCluster(w.dir)
@@ -204,8 +259,8 @@ func newWorld(o worldOpts) (*world, error) {
 	for _, r := range roles {
 		role := r
 		cn, err := w.cl.Start(role, sim.ClusterNodeOpts{Candidate: true, Compress: o.Compress, Configure: func(s *litefs.Store) {
-			s.HaltLockTTL = time.Millisecond                // a granted lock is overdue at once ...
-			s.HaltLockMonitorInterval = 24 * time.Hour      // ... but only the harness enforces expiry (Store.EnforceHaltLockExpiration)
+			s.HaltLockTTL = time.Millisecond           // a granted lock is overdue at once ...
+			s.HaltLockMonitorInterval = 24 * time.Hour // ... but only the harness enforces expiry (Store.EnforceHaltLockExpiration)
 			s.HaltAcquireTimeout = o.AcquireTO
 		}})
 		if err != nil {
@@ -214,7 +269,7 @@ func newWorld(o worldOpts) (*world, error) {
 		}
 		w.n[role] = cn
 		w.ids[role] = cn.Store.ID()
-		tp := &tap{node: role, inner: cn.Client.Inner.HTTPClient.Transport, rec: w.rec}
+		tp := &tap{w: w, node: role, inner: cn.Client.Inner.HTTPClient.Transport, rec: w.rec}
 		cn.Client.Inner.HTTPClient.Transport = tp
 		w.taps[role] = tp
 		cn.Cache.OnPos = func(db *litefs.DB) {
@@ -239,14 +294,30 @@ func newWorld(o worldOpts) (*world, error) {
 		w.close()
 		return nil, err
 	}
-	// create the database on the primary
-	if res := w.localTx("P", true); res.Err != nil {
-		w.close()
-		return nil, fmt.Errorf("create database: %w", res.Err)
+	// create the database on the primary; replicas fetch snapshots meanwhile (shared locks), so a
+	// set-up transaction that finds the database busy is retried like SQLite's busy handler would
+	n := 2
+	if o.WAL {
+		n = 3 // create, switch the header to WAL, one transaction through the log
 	}
-	if res := w.localTx("P", false); res.Err != nil {
-		w.close()
-		return nil, fmt.Errorf("second transaction: %w", res.Err)
+	for k := 0; k < n; k++ {
+		var res txResult
+		for try := 0; try < 100; try++ {
+			res = w.localTx("P", k == 0)
+			if res.Err == nil || !(res.Errno == syscall.EAGAIN || res.Errno == syscall.EBUSY) {
+				break
+			}
+			w.ver-- // the refused attempt wrote nothing that was kept
+			time.Sleep(10 * time.Millisecond)
+		}
+		if res.Err != nil {
+			w.close()
+			return nil, fmt.Errorf("set-up transaction %d: %w", k+1, res.Err)
+		}
+		if err := w.settle([]string{"R", "T"}, 20*time.Second); err != nil {
+			w.close()
+			return nil, err
+		}
 	}
 	if err := w.settle([]string{"R", "T"}, 20*time.Second); err != nil {
 		w.close()
@@ -269,6 +340,15 @@ func (w *world) close() {
 		}
 	}
 	_ = os.RemoveAll(w.dir)
+}
+
+func (w *world) roleOfHost(host string) string {
+	for r, n := range w.n {
+		if strings.HasSuffix(n.URL, "//"+host) {
+			return r
+		}
+	}
+	return "?"
 }
 
 func (w *world) pos(role string) ltx.Pos {
@@ -340,12 +420,42 @@ func (w *world) walSize(role string) int64 {
 	return fi.Size()
 }
 
+// openTx is a write transaction that has been begun and written but not committed.
+type openTx struct {
+	role string
+	pg   *sim.Pager
+	pl   sim.Plan
+	res  txResult
+}
+
 // localTx runs one complete write transaction on node `role` as a SQLite connection would (rollback
 // journal or WAL according to the database's mode). create = very first transaction of the database.
-// On failure everything the connection holds is released and a rollback-journal transaction is played
-// back (as SQLite does when the journal cannot be finalised).
-func (w *world) localTx(role string, create bool) (res txResult) {
-	n := w.n[role]
+func (w *world) localTx(role string, create bool) txResult {
+	tx, res := w.beginTx(role, create)
+	if tx == nil {
+		return res
+	}
+	return w.commitTx(tx)
+}
+
+func (w *world) failTx(role string, res txResult, stage string, err error) txResult {
+	res.Err, res.Stage, res.Errno = err, stage, sim.Errno(errors.Unwrap(err))
+	if res.Errno == 0 {
+		res.Errno = sim.Errno(err)
+	}
+	if res.RetSeq == 0 {
+		res.RetSeq = w.rec.mark()
+	}
+	res.After = w.pos(role)
+	res.Exits = w.n[role].Exits()
+	return res
+}
+
+// beginTx takes the locks and writes every page of the transaction (journal records + database pages,
+// or WAL frames including the commit frame); nothing is committed yet. On failure everything the
+// connection holds is released (a rollback-journal transaction is played back as SQLite would).
+func (w *world) beginTx(role string, create bool) (*openTx, txResult) {
+	var res txResult
 	pg := w.pager(role)
 	pg.Ref = append([]sim.Content(nil), w.ref...)
 	w.ver++
@@ -363,25 +473,13 @@ func (w *world) localTx(role string, create bool) (res txResult) {
 	} else if w.o.WAL && !walNow {
 		pl.Wal = true // the transaction that switches the header to WAL mode
 	}
-	fail := func(stage string, err error) txResult {
-		res.Err, res.Stage, res.Errno = err, stage, sim.Errno(errors.Unwrap(err))
-		if res.Errno == 0 {
-			res.Errno = sim.Errno(err)
-		}
-		if res.RetSeq == 0 {
-			res.RetSeq = w.rec.mark()
-		}
-		res.After = w.pos(role)
-		res.Exits = n.Exits()
-		return res
-	}
-	core.Beat("real:tx:" + role)
+	core.Beat("real:tx-begin:" + role)
 	defer core.Beat("harness")
 	if walNow {
 		pl.Kind = "w"
 		if err := pg.BeginW(pl); err != nil {
 			_ = pg.C.LockSHM(fuse.LockUnlock, 124, 124)
-			return fail("begin", err)
+			return nil, w.failTx(role, res, "begin", err)
 		}
 		salt := 0
 		if w.walSize(role) == 0 {
@@ -391,35 +489,20 @@ func (w *world) localTx(role string, create bool) (res txResult) {
 			salt = w.salt
 		}
 		if err := pg.WHdr(salt); err != nil {
-			_ = pg.WEnd()
-			return fail("write", err)
+			w.abortW(pg, &pl)
+			return nil, w.failTx(role, res, "write", err)
 		}
 		for i, q := range pl.M {
 			if err := pg.WFrame(q, false, i == len(pl.M)-1); err != nil {
-				pl.Out = "abort"
-				_ = pg.WEnd()
-				return fail("write", err)
+				w.abortW(pg, &pl)
+				return nil, w.failTx(role, res, "write", err)
 			}
 		}
-		before := w.pos(role)
-		err := pg.WEnd() // releases WRITE: LiteFS captures (and forwards) the transaction here
-		res.RetSeq = w.rec.mark()
-		res.After = w.pos(role)
-		res.Exits = n.Exits()
-		if err != nil {
-			return fail("commit", err)
-		}
-		if res.After == before {
-			// CommitWAL cannot report failure to SQLite; LiteFS stops the node instead (Store.Exit)
-			res.Err, res.Stage = fmt.Errorf("wal commit not captured (exits %v)", res.Exits), "commit"
-			return res
-		}
-		w.ref = append([]sim.Content(nil), pg.Ref...)
-		return res
+		return &openTx{role: role, pg: pg, pl: pl, res: res}, res
 	}
 	if err := pg.BeginJ(pl); err != nil {
 		pg.EndJ()
-		return fail("begin", err)
+		return nil, w.failTx(role, res, "begin", err)
 	}
 	steps := []func() error{pg.JCreate, pg.JSync}
 	for _, q := range pl.M {
@@ -429,20 +512,65 @@ func (w *world) localTx(role string, create bool) (res txResult) {
 	for _, f := range steps {
 		if err := f(); err != nil {
 			w.rollbackJ(pg, pl)
-			return fail("write", err)
+			return nil, w.failTx(role, res, "write", err)
 		}
+	}
+	return &openTx{role: role, pg: pg, pl: pl, res: res}, res
+}
+
+// abortW ends a WAL transaction that could not be written: the pager forgets it and drops WRITE.
+func (w *world) abortW(pg *sim.Pager, pl *sim.Plan) {
+	_ = core.Try(func() {
+		_ = pg.C.LockSHM(fuse.LockUnlock, 120, 120)
+		_ = pg.C.LockSHM(fuse.LockUnlock, 124, 124)
+		pg.ForgetWAL()
+	})
+}
+
+// commitTx is the commit point of the application: journal finalisation, or release of WRITE.
+func (w *world) commitTx(tx *openTx) txResult {
+	res, pg, role := tx.res, tx.pg, tx.role
+	core.Beat("real:tx-commit:" + role)
+	defer core.Beat("harness")
+	if tx.pl.Kind == "w" {
+		before := w.pos(role)
+		err := pg.WEnd() // releases WRITE: LiteFS captures (and forwards) the transaction here
+		res.RetSeq = w.rec.mark()
+		res.After = w.pos(role)
+		res.Exits = w.n[role].Exits()
+		if err != nil {
+			return w.failTx(role, res, "commit", err)
+		}
+		if res.After == before {
+			// CommitWAL cannot report failure to SQLite; LiteFS stops the node instead (Store.Exit)
+			res.Err, res.Stage = fmt.Errorf("wal commit not captured (exits %v)", res.Exits), "commit"
+			pg.Ref = append([]sim.Content(nil), w.ref...)
+			return res
+		}
+		w.ref = append([]sim.Content(nil), pg.Ref...)
+		return res
 	}
 	err := pg.JFinal()
 	res.RetSeq = w.rec.mark()
 	if err != nil {
-		w.rollbackJ(pg, pl)
-		return fail("commit", err)
+		w.rollbackJ(pg, tx.pl)
+		return w.failTx(role, res, "commit", err)
 	}
 	pg.EndJ()
 	res.After = w.pos(role)
-	res.Exits = n.Exits()
+	res.Exits = w.n[role].Exits()
 	w.ref = append([]sim.Content(nil), pg.Ref...)
 	return res
+}
+
+// abortTx gives up an open transaction (used when a script ends with a writer still open).
+func (w *world) abortTx(tx *openTx) {
+	if tx.pl.Kind == "w" {
+		// the frames are in the log with a commit frame; SQLite cannot un-write them, so commit
+		_ = core.Try(func() { _ = w.commitTx(tx) })
+		return
+	}
+	w.rollbackJ(tx.pg, tx.pl)
 }
 
 // rollbackJ plays the journal back the way SQLite does after a failed commit and drops the locks.
@@ -555,16 +683,48 @@ func (w *world) craftLTX(role string, nodeID uint64) ([]byte, ltx.Pos, error) {
 	return buf.Bytes(), ltx.Pos{TXID: cur.TXID + 1, PostApplyChecksum: ltx.Checksum(post)}, nil
 }
 
-// postTx sends POST /tx to a node with the real HTTP client (its own instance, so the exchange is
-// visible as a status, not through a node's tap).
+// postTx sends POST /tx to a node with the real HTTP client (the harness's own instance: the sender is
+// "H", not one of the nodes).
 func (w *world) postTx(to string, nodeID uint64, lockID int64, body []byte) (status int, err error) {
-	cl := lhttp.NewClient()
-	st := &statusTap{inner: cl.HTTPClient.Transport}
-	cl.HTTPClient.Transport = st
+	cl, st := w.directClient()
 	ctx, cancel := context.WithTimeout(context.Background(), 20*time.Second)
 	defer cancel()
 	err = cl.Commit(ctx, w.n[to].URL, nodeID, w.db, lockID, bytes.NewReader(body))
+	w.rec.add(event{Node: "H", Kind: "http", Label: "POST /tx", To: to, LockID: lockID, Status: st.status, Err: errStr(err)})
 	return st.status, err
+}
+
+// postHalt / deleteHalt deliver a (duplicated) acquire or release request directly.
+func (w *world) postHalt(to string, nodeID uint64, lockID int64) (*litefs.HaltLock, int, error) {
+	cl, st := w.directClient()
+	ctx, cancel := context.WithTimeout(context.Background(), 20*time.Second)
+	defer cancel()
+	hl, err := cl.AcquireHaltLock(ctx, w.n[to].URL, nodeID, w.db, lockID)
+	w.rec.add(event{Node: "H", Kind: "http", Label: "POST /halt", To: to, LockID: lockID, Status: st.status, Err: errStr(err)})
+	return hl, st.status, err
+}
+
+func (w *world) deleteHalt(to string, nodeID uint64, lockID int64) (int, error) {
+	cl, st := w.directClient()
+	ctx, cancel := context.WithTimeout(context.Background(), 20*time.Second)
+	defer cancel()
+	err := cl.ReleaseHaltLock(ctx, w.n[to].URL, nodeID, w.db, lockID)
+	w.rec.add(event{Node: "H", Kind: "http", Label: "DELETE /halt", To: to, LockID: lockID, Status: st.status, Err: errStr(err)})
+	return st.status, err
+}
+
+func (w *world) directClient() (*lhttp.Client, *statusTap) {
+	cl := lhttp.NewClient()
+	st := &statusTap{inner: cl.HTTPClient.Transport}
+	cl.HTTPClient.Transport = st
+	return cl, st
+}
+
+func errStr(err error) string {
+	if err == nil {
+		return ""
+	}
+	return err.Error()
 }
 
 type statusTap struct {
